@@ -238,20 +238,37 @@ pub fn scenario(rng: &mut Rng) -> Scenario {
 // ---------------------------------------------------------------------------------------
 // output readers
 
-/// NAME : VALUE triples
-fn triples(out: &str) -> Option<Vec<(String, String)>> {
-    let toks: Vec<&str> = out.split_whitespace().collect();
-    if toks.len() % 3 != 0 {
-        return None;
-    }
-    let mut v = Vec::new();
-    for c in toks.chunks(3) {
-        if c[1] != ":" {
+/// value shown for `name`: the name as a whole word, then separators (blanks, ':' or '='), an optional 0x prefix and a
+/// run of value characters; None when the name does not occur exactly once (layout and separators are not prescribed)
+fn shown_value(out: &str, name: &str) -> Option<String> {
+    let b = out.as_bytes();
+    let is_word = |c: u8| c.is_ascii_alphanumeric() || c == b'_';
+    let mut found: Option<String> = None;
+    let mut i = 0;
+    while let Some(p) = out[i..].find(name) {
+        let s = i + p;
+        let e = s + name.len();
+        i = e;
+        if (s > 0 && is_word(b[s - 1])) || (e < b.len() && is_word(b[e])) {
+            continue;
+        }
+        let mut k = e;
+        while k < b.len() && (b[k] == b' ' || b[k] == b'\t' || b[k] == b':' || b[k] == b'=') {
+            k += 1;
+        }
+        if k + 1 < b.len() && b[k] == b'0' && (b[k + 1] == b'x' || b[k + 1] == b'X') {
+            k += 2;
+        }
+        let v0 = k;
+        while k < b.len() && b[k].is_ascii_alphanumeric() {
+            k += 1;
+        }
+        if found.is_some() {
             return None;
         }
-        v.push((c[0].to_string(), c[2].to_string()));
+        found = Some(out[v0..k].to_string());
     }
-    Some(v)
+    found
 }
 
 /// rows of two-digit upper-case hex tokens
@@ -291,41 +308,29 @@ pub fn judge_output(kind: &PK, prompt: bool, decimal: bool, out: &str, regs: &Re
             }
         }
         PK::Reg => {
-            let t = match triples(out) {
-                Some(t) => t,
-                None => return (Some("format".into()), "reg"),
-            };
-            if t.len() != 12 {
-                return (Some("count".into()), "reg");
-            }
             for (name, idx) in REG12 {
-                let hits: Vec<&(String, String)> = t.iter().filter(|(n, _)| n == name).collect();
-                if hits.len() != 1 {
-                    return (Some(format!("missing:{}", name)), "reg");
-                }
-                let want = format!("0x{:04X}", regs[idx]);
-                if hits[0].1 != want {
-                    return (Some(format!("value:{}", name)), "reg");
+                match shown_value(out, name) {
+                    None => return (Some(format!("missing:{}", name)), "reg"),
+                    Some(v) => {
+                        // exactly four upper-case hex digits
+                        if v != format!("{:04X}", regs[idx]) {
+                            return (Some(format!("value:{}", name)), "reg");
+                        }
+                    }
                 }
             }
             (None, "reg")
         }
         PK::Flags => {
-            let t = match triples(out) {
-                Some(t) => t,
-                None => return (Some("format".into()), "flags"),
-            };
-            if t.len() != 9 {
-                return (Some("count".into()), "flags");
-            }
             for (name, bit) in FLAG9 {
-                let hits: Vec<&(String, String)> = t.iter().filter(|(n, _)| n == name).collect();
-                if hits.len() != 1 {
-                    return (Some(format!("missing:{}", name)), "flags");
-                }
-                let want = if regs[FLAG] & bit != 0 { "1" } else { "0" };
-                if hits[0].1 != want {
-                    return (Some(format!("value:{}", name)), "flags");
+                match shown_value(out, name) {
+                    None => return (Some(format!("missing:{}", name)), "flags"),
+                    Some(v) => {
+                        let want = if regs[FLAG] & bit != 0 { "1" } else { "0" };
+                        if v != want {
+                            return (Some(format!("value:{}", name)), "flags");
+                        }
+                    }
                 }
             }
             (None, "flags")
@@ -585,4 +590,4 @@ pub fn run(rep: &Report) {
     rep.floor("print commands judged at the prompt", rep.counter("print commands judged (prompt)"), 200);
 }
 
-pub const RULE: &str = "generated programs load random data into 1-3 segments (incl. the top of the 1 MiB space), set SS:SP, all nine flags (via popf), ES, DS, optionally CS and the eight general registers to boundary-biased values, then issue print commands in source and, after int 3, at the prompt: reg, flags, mem a->b / a:n / :n with lengths 1,2,..,15,16,17,..,1000+, ranges ending at 0xFFFFF, backwards ranges, DS-relative ranges with DS up to 0xFFFF that fit / just do not fit, constants in decimal/0x/0X/0b (source) and beyond 2^20, upper-case keywords, garbage at the prompt. Oracle: stdout between consecutive hook records is parsed back (NAME : 0xHHHH with exactly four upper-case hex digits for the 12 registers, NAME : 0/1 for the 9 flags, rows of two-digit upper-case hex, 16 per row except the last, count = range length) and compared with the registers of the hook record and the memory dump of the halting record (memory digest is checked to be constant from the first print on); a backwards or memory-leaving range must yield a non-dump report; the hook records before and after every print / prompt session must be identical. Accept-sets: constants >= 2^20 may be read modulo 2^20 or reported; non-decimal constants at the prompt may be refused. Distinct = (source|prompt, command class, length class, radix class).";
+pub const RULE: &str = "generated programs load random data into 1-3 segments (incl. the top of the 1 MiB space), set SS:SP, all nine flags (via popf), ES, DS, optionally CS and the eight general registers to boundary-biased values, then issue print commands in source and, after int 3, at the prompt: reg, flags, mem a->b / a:n / :n with lengths 1,2,..,15,16,17,..,1000+, ranges ending at 0xFFFFF, backwards ranges, DS-relative ranges with DS up to 0xFFFF that fit / just do not fit, constants in decimal/0x/0X/0b (source) and beyond 2^20, upper-case keywords, garbage at the prompt. Oracle: stdout between consecutive hook records is parsed back (each of the 12 register names exactly once, followed by exactly four upper-case hex digits, each of the 9 flag names followed by 0/1 -- separators and layout are not prescribed -- rows of two-digit upper-case hex, 16 per row except the last, count = range length) and compared with the registers of the hook record and the memory dump of the halting record (memory digest is checked to be constant from the first print on); a backwards or memory-leaving range must yield a non-dump report; the hook records before and after every print / prompt session must be identical. Accept-sets: constants >= 2^20 may be read modulo 2^20 or reported; non-decimal constants at the prompt may be refused. Distinct = (source|prompt, command class, length class, radix class).";
